@@ -52,6 +52,10 @@ func runC01(c *vkit.Ctx, i int, h *History) {
 	r := c.Rand("run", i)
 	s := NewSess("c01")
 	defer s.Close()
+	s.ShareConfigs = i%2 == 0
+	if s.ShareConfigs {
+		c.Count("histories_through_shared_config_objects", 1)
+	}
 	s.StrictWrites = false
 	s.seedPre(h)
 	ok := true
